@@ -24,6 +24,7 @@ none, any exit status, a solver that deletes its input or result file):
               proved in full for the proposed patch (`patched_leak_free`)
   outcomes    `OutcomeDocumented` (full statement) likewise: `current_outcome_not_documented`,
               `current_outcome_documented_partial`, `patched_outcome_documented`
+  exactly     `current_leak_iff`, `current_oserror_iff` — exactly which runs of the current source leak / let an OSError out
   patch       `patched_same_when_nothing_fails` — the patch changes nothing on fault-free runs
   wrappers    `isSatisfiableW_eq`, `solveW_select_error`, `solveW_fault_free`, `solveW_patched_documented`,
               `solveW_current_documented_partial`; generic: `leak_check_sound`
@@ -388,6 +389,59 @@ example : cleanPrefix (prologueLen .fileInFileOut) [.ok, .ok, .ok, .ok, .ok, .ok
     (run .fileInFileOut politeSat [.ok, .ok, .ok, .ok, .ok, .ok, .os, .ok, .os]).refused = [1] := by
   decide +kernel
 
+/-! ### exactly when the current source leaks, exactly when it lets an OSError out -/
+
+def strayB (p : Path) : Bool := !(p.left.all p.2.1.refused.contains)
+
+def condLeak (k : Nat) (isMinisat rmIn : Bool) (p : Path) : Bool :=
+  (!p.2.1.created.isEmpty && decide (p.2.1.trace.length ≤ k)) ||
+  (isMinisat && decide (k < p.2.1.trace.length) && (p.2.1.refused.contains 0 || (rmIn && p.2.1.ran)) &&
+    p.left.contains 1)
+
+/-- T-C20.9d  **Exactly when the current source leaves a temporary file behind** (one that the OS did
+not refuse to remove), for every schedule and solver:
+ (i)  a resource call made BEFORE the `try` failed after the first file had been created
+      (at most `prologueLen f` calls were made: the `try` was never entered) — C20-R1; or
+ (ii) minisat convention only: the `try` was entered, the removal of the input file (path 0) raised —
+      refused by the OS, or the file had been deleted by the solver — and the result file (path 1)
+      was still there: its removal is skipped — C20-R2.
+Nothing else leaks: in particular no failure of `Popen`, `communicate`, `open`, `read`, `close` inside
+the `try`, of whatever kind. -/
+theorem current_leak_iff (f : Iface) (b : Beh) (sched : List Fault) :
+    (∃ p ∈ (run f b sched).left, p ∉ (run f b sched).refused) ↔
+      ((run f b sched).created ≠ [] ∧ (run f b sched).trace.length ≤ prologueLen f) ∨
+      (f = .fileInFileOut ∧ prologueLen f < (run f b sched).trace.length ∧
+        (0 ∈ (run f b sched).refused ∨ (b.rmIn = true ∧ (run f b sched).ran = true)) ∧
+        1 ∈ (run f b sched).left) := by
+  have hq : forAllPaths (progOf .current f)
+      (fun a _ _ p => strayB p == condLeak (prologueLen f) (f == .fileInFileOut) a p) = true := by
+    cases f <;> decide +kernel
+  obtain ⟨path, _, hp⟩ := run_satisfies hq b.rmIn b.rmOut b.file.isSome sched
+  generalize hex : exec b.rmIn b.rmOut b.file.isSome (progOf .current f) sched RState.init = res at hp
+  obtain ⟨rest, st, x⟩ := res
+  have hstray : strayB (path, st, x) = true ↔
+      ∃ p ∈ st.created.filter st.files.contains, p ∉ st.refused := by
+    simp [strayB, Path.left, and_assoc]
+  have hcond : condLeak (prologueLen f) (f == .fileInFileOut) b.rmIn (path, st, x) = true ↔
+      ((st.created ≠ [] ∧ st.trace.length ≤ prologueLen f) ∨
+       (f = .fileInFileOut ∧ prologueLen f < st.trace.length ∧
+         (0 ∈ st.refused ∨ (b.rmIn = true ∧ st.ran = true)) ∧
+         1 ∈ st.created.filter st.files.contains)) := by
+    simp [condLeak, Path.left, and_assoc]
+  simp only [run, runProg, observe, hex]
+  rw [← hstray, ← hcond]
+  rw [beq_iff_eq] at hp
+  rw [hp]
+
+/-- non-vacuity of both sides: (i) and (ii) happen, and a failing `Popen` does not leak -/
+example :
+    ((run .fileInFileOut politeSat [.ok, .ok, .ok, .os]).created ≠ [] ∧
+      (run .fileInFileOut politeSat [.ok, .ok, .ok, .os]).trace.length ≤ prologueLen .fileInFileOut) ∧
+    (prologueLen .fileInFileOut < (run .fileInFileOut rudeIn []).trace.length ∧
+      (run .fileInFileOut rudeIn []).ran = true ∧ 1 ∈ (run .fileInFileOut rudeIn []).left) ∧
+    (run .fileInFileOut politeSat [.ok, .ok, .ok, .ok, .ok, .ok, .other]).left = [] := by
+  decide +kernel
+
 /-! ## T-C20.10 — the documented error instead of a verdict -/
 
 /-- FULL STATEMENT (outcomes): when the environment raises only OSErrors — at any resource call,
@@ -451,6 +505,76 @@ theorem current_outcome_not_documented : ¬ OutcomeDocumented .current := by
     decide +kernel
   rw [hout] at this
   cases this
+
+def condOS (k : Nat) (notStdin isMinisat rmIn rmOut : Bool) (p : Path) : Bool :=
+  (decide (p.2.1.trace.length ≤ k) && decide (1 ≤ p.1.length) && p.1.getD (p.1.length - 1) .ok == .os) ||
+  (decide (k < p.2.1.trace.length) &&
+    (!p.2.1.refused.isEmpty || (rmIn && p.2.1.ran && notStdin) || (rmOut && p.2.1.ran && isMinisat)))
+
+/-- T-C20.10d  **Exactly when the current source lets an OSError out** (instead of a verdict or the
+documented RuntimeError), for every schedule — non-OSError faults included — and every solver:
+ (i)  the LAST resource call made was one of those before the `try` and it raised an OSError
+      (the `try` was never entered) — C20-R1; or
+ (ii) the `try` was entered and a removal in the `finally` raised: refused by the OS, or the solver
+      had deleted its input file (file conventions) or its result file (minisat convention) — C20-R2.
+Never otherwise: every OSError raised inside the `try` is turned into RuntimeError, and the
+stdin/stdout convention never lets one out at all. -/
+theorem current_oserror_iff (f : Iface) (b : Beh) (sched : List Fault) :
+    (run f b sched).outcome = .error .osError ↔
+      ((run f b sched).trace.length ≤ prologueLen f ∧ 1 ≤ (run f b sched).trace.length ∧
+          sched.getD ((run f b sched).trace.length - 1) .ok = .os) ∨
+      (prologueLen f < (run f b sched).trace.length ∧
+        ((run f b sched).refused ≠ [] ∨
+         (b.rmIn = true ∧ (run f b sched).ran = true ∧ f ≠ .stdinStdout) ∨
+         (b.rmOut = true ∧ (run f b sched).ran = true ∧ f = .fileInFileOut))) := by
+  have hq : forAllPaths (progOf .current f) (fun a c _ p =>
+      ((p.2.2 == some Exn.osError) ==
+        condOS (prologueLen f) (f != .stdinStdout) (f == .fileInFileOut) a c p) &&
+      p.1.length == p.2.1.trace.length) = true := by cases f <;> decide +kernel
+  obtain ⟨path, hag, hp⟩ := run_satisfies hq b.rmIn b.rmOut b.file.isSome sched
+  generalize hex : exec b.rmIn b.rmOut b.file.isSome (progOf .current f) sched RState.init = res at hp hag
+  obtain ⟨rest, st, x⟩ := res
+  simp only [Bool.and_eq_true, beq_iff_eq] at hp
+  obtain ⟨hp1, hlen⟩ := hp
+  simp only at hlen hag
+  have hout : (observe f b (st, x)).outcome = .error .osError ↔ (x == some Exn.osError) = true := by
+    cases x with
+    | none =>
+      simp only [observe]
+      cases parsePhase f b st <;> simp [liftErr]
+    | some e => cases e <;> simp [observe]
+  have hget : 1 ≤ path.length → path.getD (path.length - 1) .ok = sched.getD (path.length - 1) .ok :=
+    fun h1 => hag.getD (path.length - 1) (by omega)
+  simp only [run, runProg, hex]
+  rw [hout, hp1]
+  simp only [observe]
+  rw [← hlen]
+  simp only [condOS, Bool.or_eq_true, Bool.and_eq_true, decide_eq_true_eq, beq_iff_eq,
+    Bool.not_eq_true', List.isEmpty_eq_false_iff, bne_iff_ne, ne_eq]
+  constructor
+  · rintro (⟨⟨h1, h2⟩, h3⟩ | ⟨h1, h2⟩)
+    · left; exact ⟨by omega, h2, by rw [← hget h2]; exact h3⟩
+    · right; refine ⟨by omega, ?_⟩
+      rcases h2 with (h2 | ⟨⟨h2, h3⟩, h4⟩) | ⟨⟨h2, h3⟩, h4⟩
+      · left; exact h2
+      · right; left; exact ⟨h2, h3, h4⟩
+      · right; right; exact ⟨h2, h3, h4⟩
+  · rintro (⟨h1, h2, h3⟩ | ⟨h1, h2⟩)
+    · left; exact ⟨⟨by omega, h2⟩, by rw [hget h2]; exact h3⟩
+    · right; refine ⟨by omega, ?_⟩
+      rcases h2 with h2 | ⟨h2, h3, h4⟩ | ⟨h2, h3, h4⟩
+      · left; left; exact h2
+      · left; right; exact ⟨⟨h2, h3⟩, h4⟩
+      · right; exact ⟨⟨h2, h3⟩, h4⟩
+
+/-- non-vacuity: (i), (ii) refused removal, (ii) result file deleted by the solver; and an OSError at
+`communicate` does not come out -/
+example :
+    (run .fileInStdout politeSat [.ok, .ok, .os]).outcome = .error .osError ∧
+    (run .fileInStdout politeSat [.ok, .ok, .ok, .ok, .ok, .ok, .os]).refused ≠ [] ∧
+    (run .fileInFileOut rudeOut []).ran = true ∧
+    (run .fileInFileOut politeSat [.ok, .ok, .ok, .ok, .ok, .ok, .ok, .os]).outcome = .error (.py .runtimeError) := by
+  decide +kernel
 
 def qOutcomePartial (k : Nat) (rmIn rmOut _ : Bool) (p : Path) : Bool :=
   !cleanPrefix k p.1 || !osOnly p.1 || rmIn || rmOut || !p.2.1.refused.isEmpty || p.2.2.isNone
